@@ -6,12 +6,12 @@
 set -u
 ID=$1; K=$2; shift 2; DET="$*"
 SRC=/tmp/seed/$ID/out
-WT=/tmp/seedconfirm
+WT=/tmp/seedconfirm${CONFIRM_SLOT:-}
 OUT=/verif/seeded/$ID-$K
 [ -f $SRC/patch_$K.diff ] || { echo "no patch"; exit 2; }
 if [ ! -d $WT ]; then git -C /repo worktree add -q --detach $WT HEAD; fi
 git -C $WT checkout -q --detach $(git -C /repo rev-parse HEAD); git -C $WT checkout -q -- .; rm -f $WT/tests/seed_demo.rs
-export CARGO_TARGET_DIR=/tmp/seedconfirm-target CARGO_NET_OFFLINE=true
+export CARGO_TARGET_DIR=/tmp/seedconfirm-target${CONFIRM_SLOT:-} CARGO_NET_OFFLINE=true
 cp $SRC/demo_$K.rs $WT/tests/seed_demo.rs
 clean=$(cd $WT && cargo test --offline --test seed_demo 2>&1 | grep -E '^test result' | tail -1)
 git -C $WT apply $SRC/patch_$K.diff || { echo "patch does not apply"; exit 2; }
